@@ -8,8 +8,10 @@ from .. import harness as H
 from . import c01
 
 MEMFUNCS = {"memcpy", "memset", "memmove", "memcmp"}
+# what a C compiler may emit by itself: libgcc/compiler-rt integer helpers and the stack protector.
+# Loader/libc services (__tls_get_addr, __cxa_*, _ITM_*, ...) are NOT in this set: they need a hosted runtime.
 COMPILER_RT = re.compile(r"^(__stack_chk_fail|__stack_chk_guard|__(u?div|u?mod|mul|ashl|ashr|lshr|cmp|ucmp|neg|ffs|clz|ctz|popcount|parity|bswap)[sdt]i[234]?"
-                         r"|__udivmoddi4|__divmoddi4|_GLOBAL_OFFSET_TABLE_|__gmon_start__|_ITM_\w+|__cxa_finalize|__tls_get_addr)$")
+                         r"|__udivmoddi4|__divmoddi4|_GLOBAL_OFFSET_TABLE_)$")
 
 
 def port_functions():
@@ -76,6 +78,9 @@ def run(ctx):
             rel = os.path.join(d, "%s-core.o" % name)
             if sh(["ld", "-r", "-o", rel] + objs).returncode == 0:
                 und = set(x.split()[-1] for x in sh(["nm", "-u", rel]).stdout.split("\n") if x.strip())
+                tls = [ln.split()[-1] for ln in sh(["readelf", "-sW", rel]).stdout.split("\n") if " TLS " in ln]
+                if tls:
+                    und |= set("thread-local-object:" + t for t in tls)
         exe = os.path.join(d, "vh-%s" % name)
         hs = [os.path.join(H.HARN, x) for x in ("vh_frames.c", "vh_flow.c", "vport.c")]
         r = sh(["gcc", "-O1", "-g", "-w", "-rdynamic", inc, "-I" + H.HARN, "-o", exe] + hs + [lib, "-Wl,-rpath," + d])
